@@ -216,6 +216,7 @@ struct State
   std::set<std::string> covers;
   size_t input_cursor = 0;                      // concrete-input mode
   bool exited = false; int exit_code = 0;
+  uint64_t heap_bytes = 0;                      // total bytes ever allocated on this path
 };
 
 static std::vector<std::shared_ptr<Obj>> GOBJ;   // read-only / function objects, shared by all states (index = id)
@@ -246,7 +247,7 @@ static int new_obj(State &s, uint64_t size, const std::string &name, OK kind, bo
 // ---------------------------------------------------------------- stats / options
 struct Stats
 {
-  uint64_t pruned_render = 0, paths = 0, completed = 0, infeasible = 0, queries = 0, steps = 0, forks = 0, cache_hits = 0, model_hits = 0, asserts_checked = 0, abandoned = 0;
+  uint64_t unknown_paths = 0, pruned_render = 0, paths = 0, completed = 0, infeasible = 0, queries = 0, steps = 0, forks = 0, cache_hits = 0, model_hits = 0, asserts_checked = 0, abandoned = 0;
   double solver_s = 0;
 } ST;
 
@@ -261,6 +262,9 @@ struct Options
   std::vector<uint64_t> concrete;
   uint64_t seed = 0;
   bool uf_muldiv = false;
+  bool tolerate_unknown = false; // a solver 'unknown' ends that path (counted) instead of making the whole run inconclusive
+  unsigned support_bits = 16;    // a symbolic table index depending on at most this many input bits is enumerated through those bits
+  bool merge_ptrs = false;       // build guarded multi-target pointers for pointer loads through a symbolic index (good when the text is not parsed again)
   bool false_first = false;      // on a two-way fork continue with the false side first (reaches 'no table row matched' paths early)
   unsigned render_classes = 0;   // 0: explore every digit-count class of a rendered symbolic integer; N: only N of them (shortest, longest, middle)
   bool verbose = false;
@@ -270,6 +274,9 @@ struct Violation { std::string kind, msg, fn, loc, key; std::vector<std::pair<In
 static std::vector<Violation> VIOLS;
 static std::map<std::string, size_t> VIOL_INDEX;
 static bool INCONCLUSIVE = false; static std::string INCONCLUSIVE_WHY;
+
+// request to terminate the current path quietly (after a reported violation)
+struct PathEnd { const char *why; };
 
 // ---------------------------------------------------------------- solver
 static z3::solver *SOLVER;
@@ -299,6 +306,7 @@ static z3::check_result solve(State &s, const z3::expr *extra, std::shared_ptr<z
   if (OPT.verbose && dt > 0.05) fprintf(stderr, "symx: slow query %.3fs (%s) pc=%zu: %s\n", dt, r == z3::sat ? "sat" : r == z3::unsat ? "unsat" : "unknown", s.pc.size(), extra ? extra->to_string().substr(0, 400).c_str() : "(pc)");
   if (r == z3::unknown)
   {
+    if (OPT.tolerate_unknown) { ST.unknown_paths++; throw PathEnd{"solver unknown"}; }
     INCONCLUSIVE = true; INCONCLUSIVE_WHY = "solver returned unknown (timeout " + std::to_string(OPT.query_timeout_ms) + " ms)";
     if (OPT.verbose) { fprintf(stderr, "symx: UNKNOWN query: %s\n  pc:\n", extra ? extra->to_string().substr(0, 1500).c_str() : "(pc)"); for (auto &c : s.pc) fprintf(stderr, "   %s\n", c.to_string().substr(0, 300).c_str()); }
   }
@@ -356,7 +364,11 @@ static std::vector<uint64_t> feasible_values(State &s, const z3::expr &e, unsign
   {
     ST.queries++;
     z3::check_result r = SOLVER->check();
-    if (r == z3::unknown) { INCONCLUSIVE = true; INCONCLUSIVE_WHY = "solver unknown in value enumeration"; break; }
+    if (r == z3::unknown)
+    {
+      if (OPT.tolerate_unknown) { SOLVER->pop(); ST.unknown_paths++; throw PathEnd{"solver unknown"}; }
+      INCONCLUSIVE = true; INCONCLUSIVE_WHY = "solver unknown in value enumeration"; break;
+    }
     if (r != z3::sat) break;
     z3::model m = SOLVER->get_model();
     z3::expr v = m.eval(e, true);
@@ -443,7 +455,7 @@ static std::vector<uint64_t> feasible_assignments(State &s, const Support &sp)
 {
   Timer tm(T_ENUM);
   std::set<unsigned> sv; for (auto &v : sp.vars) sv.insert(Z3_get_ast_id(Z, v));
-  std::vector<z3::expr> rel; bool independent = sp.bits <= 10;
+  std::vector<z3::expr> rel; bool independent = sp.bits <= 12;
   if (independent)
     for (auto &c : s.pc)
     {
@@ -454,7 +466,7 @@ static std::vector<uint64_t> feasible_assignments(State &s, const Support &sp)
       if (!only) { independent = false; break; }
       rel.push_back(c);
     }
-  if (!independent) return feasible_values(s, support_cat(sp), 1100);
+  if (!independent) return feasible_values(s, support_cat(sp), 70000);
   // cache keyed by the variables and the relevant constraints (all pinned, ids stable)
   static std::map<std::vector<unsigned>, std::vector<uint64_t>> cache;
   std::vector<unsigned> key; for (auto &v : sp.vars) key.push_back(eid(v)); key.push_back(0); for (auto &c : rel) key.push_back(eid(c));
@@ -477,8 +489,6 @@ static std::vector<uint64_t> feasible_assignments(State &s, const Support &sp)
 
 // request to re-execute the current instruction under each alternative constraint
 struct ForkReq { std::vector<z3::expr> alts; bool prechecked = false; };
-// request to terminate the current path quietly (after a reported violation)
-struct PathEnd { const char *why; };
 
 static std::string val_str(State &s, const Val &v, z3::model *m)
 {
